@@ -9,6 +9,36 @@ CHECKS = [
         text='Random straight-line statement programs (redefinitions, piecewise, optional ODE) are checked against an independent reference interpreter and reaching-definition analysis for full_expression, dependencies, find_assignment, direct_dependencies, reassign, subs, remove_symbol_definitions and remove_unused_parameters_and_rvs; thousands of programs per run. Exploration only: absence of violations outside the generated shapes is not shown.',
         note='Trusted: sympy free_symbols and numeric evaluation by the harness tree walker; reference dependency sets are cross-checked by numeric perturbation.',
     ),
+    dict(
+        id='C05', level='exploration',
+        technique='property-based testing: generated compartment graphs and builder-operation histories vs an independent reference model (numeric evaluation of matrix/equations, round trips)',
+        text='Generated systems (1-6 compartments, symbolic/quotient/Michaelis-Menten rates, outputs, doses, inputs, lag/F) and histories of builder operations are frozen after every step and compared with a pharmpy-free reference model: eqs == M*A+u entrywise, one compartment order for names/amounts/eqs/inputs, mass balance, to_compartmental_system back conversion, to_dict/from_dict/json and subs round trips, equality totality. Exploration: thousands of systems per run.',
+        note='Trusted: sympy, the numeric evaluator pv/irsem.py, the reference model pv/ref/cmtref.py. One numeric sample point per case. Back conversion asserted only for rate shapes to_compartmental_system supports.',
+    ),
+    dict(
+        id='C11', level='exploration',
+        technique='property-based testing: histories of join/unjoin/index/subs/+ vs reference covariance table; generated matrices for PSD repair and conversion inverses; UCP round trip on generated models',
+        text='Random-variable collections (<=6 variables) go through generated operation histories checked after every step against a pharmpy-free reference (names, blocks, levels, variances/covariances, block-diagonal composition, needless reordering); symmetric matrices in PD / indefinite / near-singular classes check validity repair (valid values bit-identical, result PSD, not farther than eigenvalue clipping); sd/corr and cov/corr/prec/se conversions are pairwise inverses; calculate_parameters_from_ucp(scale, 0.1) reproduces initial estimates.',
+        note='Trusted: numpy eigen decomposition; no verdict within 1e-10 relative of singularity; tolerances 1e-9 relative (scaled by condition number for inverses).',
+    ),
+    dict(
+        id='C15', level='exploration',
+        technique='schedule-owning deterministic scheduler (virtual threads, simulated fcntl kernel) with Hypothesis-drawn programs+schedules, plus exhaustive DFS over all schedules of the 2-thread x <=2-request catalogue; oracle = reference reader-writer lock specification',
+        text='lock.py is loaded from the working tree as fresh module instances per simulated process with threading primitives and fcntl replaced; every primitive operation is a yield point and the next thread is chosen by the generated choice sequence, so schedules are inputs that shrink and replay. Safety (exclusion, hold never lost), liveness at terminal states (no lost wake-up), refusal clauses and quiescence bookkeeping are checked against a reference RW-lock spec; the finite catalogue of 2-thread programs is explored over all schedules (state caching).',
+        note='The kernel is a model of POSIX record locks validated against the real kernel on fixed non-blocking sequences (selfcheck); real GIL/kernel timing is not exercised; exhaustive holds modulo the DFS state-merge assumption (can only lose states, never raise a false alarm).',
+    ),
+    dict(
+        id='C17', level='exploration',
+        technique='property-based testing: generated workflow construction scripts vs reference ordered DAG and topological evaluator; execution through dask threaded dispatcher with 1/2/8 threads',
+        text='Construction scripts (add_task, insert_workflow N:N/N:1/1:N, replace_task, +, insert_context; <=12 tasks) are replayed on pharmpy and on a pharmpy-free reference DAG; after every builder operation tasks/edges must agree, and executing the workflow (dask dict directly, local_dask.run, execute_workflow with Null/LocalDirectory context) must return the reference value with every task called once and after its predecessors.',
+        note='dask thread interleavings are not owned (purity of the task family + repetition with 1/2/8 threads only); distributed dispatcher only in thorough.',
+    ),
+    dict(
+        id='C19', level='exploration',
+        technique='property-based testing: generated candidate sets / strictness expressions / replicate tables vs numpy-scipy reference formulas quoted from the docs',
+        text='AIC/BIC variants and LRT on models with varied parameter counts, strictness expressions from the documented grammar against an own evaluator, rank_models eligibility/order/ties/NaN handling, and bootstrap/cdd/shrinkage/delta-method/simeval statistics against direct numpy/scipy references.',
+        note='Only documented formulas are asserted (listed in pv/ref/stats.py); clauses are skipped where the docs are ambiguous (LRT df with differing numbers of fixed parameters, mixed BIC for dead parameters).',
+    ),
 ]
 
 ALL = ['C%02d' % i for i in range(1, 21)]
